@@ -25,6 +25,9 @@ def main(argv=None):
         if a.replay:
             with open(a.replay) as f:
                 rec = json.load(f)
+            if isinstance(rec.get("case"), dict) and rec["case"].get("mode") in ("mc-system", "mc-system-invariant", "session"):
+                from checks import system_common
+                return system_common.replay(rec)
             return mod.replay(rec)
         ctx = core.Ctx(pid, a.tier, seed)
         mod.run(ctx)
